@@ -1,5 +1,5 @@
 """C02 - decided by spec/core/Geoh5Core.tla (TLC) + replay of the exported state graph (harness/core_replay.py)."""
 from ..core_check import make
 
-run, replay = make("C02", ["C02_quick.cfg", "C02mv_quick.cfg"], ["C02_thorough.cfg", "C12x_thorough.cfg", ("Sim_remove.cfg", {"num": 150, "depth": 30})],
+run, replay = make("C02", ["C02_quick.cfg", "C02mv_quick.cfg", "C05blk_quick.cfg"], ["C02_thorough.cfg", "C12x_thorough.cfg", ("Sim_remove.cfg", {"num": 150, "depth": 30})],
                    "every closed file of every replayed behaviour is checked against the geoh5 layout rules with raw h5py (containers, ID attributes, Type links by object address, hard links to flat nodes, single parent, reachability, property-group membership)", neg=('AsBuilt_orphans.cfg','NoOrphansWhenClosed'))
